@@ -38,6 +38,28 @@ def build_inputs(ctx, rnd):
                         o2, w2, max(0, min((1 << (8 * w2)) - 1, v2 + rnd.choice([-2, -1, 1, 2, 5]))))
             if d != c.data:
                 faults.append(ds.Case(c.tname, c.cc, c.enc, d, "two_size_faults", None, {"fields": [p1, p2]}))
+        # the same fault in two nested regions that end at the same byte (a last parameter's TPM2B inside commandSize, a buffer
+        # inside its structure's TPM2B, …): both too long with the padding supplied, or both too short - two warnings of one
+        # kind arrive back to back, typically while a byte buffer is being folded by the printer
+        def _end(o, w, v, pth):
+            return (o - 2) + v if pth.endswith(("commandSize", "responseSize")) else o + w + v
+        same = [(a, b2) for i, a in enumerate(pos) for b2 in pos[i + 1:] if _end(*a) == _end(*b2) and _end(*a) <= len(c.data)]
+        # pairs whose inner region is itself a structure that ends in a further region (a buffer) come first
+        deep = [(a, b2) for a, b2 in same if any(x[0] > b2[0] and _end(*x) == _end(*b2) for x in pos)]
+        rest_ = [pr for pr in same if pr not in deep]
+        for a, b2 in rnd.sample(deep, min(len(deep), 2)) + rnd.sample(rest_, min(len(rest_), 2)):
+            k = rnd.choice([1, 2, 3])
+            for sign in (1, -1):
+                if min(a[2], b2[2]) + sign * k < 0 or max(a[2], b2[2]) + k + 4 >= 1 << (8 * min(a[1], b2[1])):
+                    continue
+                # too long: the outer region (the earlier size field) by j more than the inner one - once the inner region's
+                # padding has been passed over, the outer one is still not filled
+                j = rnd.choice([0, 1, 2, 4]) if sign > 0 else 0
+                d = _mg.put(_mg.put(c.data, a[0], a[1], a[2] + sign * k + j), b2[0], b2[1], b2[2] + sign * k)
+                if sign > 0:
+                    e = _end(*a)
+                    d = d[:e] + bytes(rnd.randrange(256) for _ in range(k + j)) + d[e:]
+                faults.append(ds.Case(c.tname, c.cc, c.enc, d, "nested_same_fault", None, {"fields": [a[3], b2[3]]}))
         if pos and vpos:
             o1, w1, v1, p1 = rnd.choice(pos)
             o2, w2, p2, pn = rnd.choice(vpos)
@@ -50,7 +72,10 @@ def build_inputs(ctx, rnd):
             faults.append(ds.Case(c.tname, c.cc, c.enc, c.data[:k], "truncated"))
         faults.append(ds.Case(c.tname, c.cc, c.enc, c.data + bytes([rnd.randrange(256)]), "surplus"))
     if ctx.tier == "quick" and len(faults) > 9000:
-        faults = rnd.sample(faults, 9000)
+        keep = [f for f in faults if f.kind == "nested_same_fault"]
+        other = [f for f in faults if f.kind != "nested_same_fault"]
+        keep = rnd.sample(keep, min(len(keep), 1500))
+        faults = keep + rnd.sample(other, min(len(other), 9000 - len(keep)))
     rndc = C06.build(ctx, rnd, L, M)
     if ctx.tier == "quick":
         rndc = rnd.sample(rndc, min(len(rndc), 3000))
